@@ -66,6 +66,10 @@ CLAIMED = {
          "Machine-checked proof of C18_locked_means_locked, C18_abort_stops, C18_startup_locked, C18_deadband, C18_half_scale, C18_engine_range, C18_no_crash, C18_arith_in_range, C18_sequences and the CLI theorems; tied to the code by all 112 reachable interlock states x all scancodes x boundary/random (thorough: all 65536) axis values, raw records of all four types x every number x extreme values in all four modes, the real glonaxctl binary for every toggle sub-command x accepted/rejected words x compatible/incompatible daemon, and the real glonax-input binary fed through a FIFO (start-up state, failsafe flag, forwarding).",
          "The start-up state and --fail-safe default of glonax-input's main are regenerated from the source by the extractor and observed end to end only in the thorough tier (and in the search step). clap argument parsing is trusted. One genuine defect found and fixed (axis negation at -32768).",
          "DESIGN.md section 4 C18"),
+ "C15": ("Lean 4 induction over arbitrary interleavings of sends and consumer polls on the broadcast-ring model (any number of producers and networks): order, losslessness under capacity, lag never exits the loop, after a drain exactly the retained suffix (hence the last command) is handled + differential schedules on the real Runtime::schedule_net_service command tasks with held-back handlers",
+         "Machine-checked proof of C15_order, C15_lossless_under_capacity, C15_never_exits_on_lag, C15_newest_processed, C15_last_command_handled (ring invariant against the publication history, by induction over schedules); tied to the code by running the real Runtime with recording NetworkService stubs (1-3 networks) and the real CommandSender: bursts 1..64 (thorough 1..200) while handlers are blocked, partial releases, emergency-style 6-command bursts, random schedules; observed per-network on_command order compared with the model.",
+         "tokio::sync::broadcast is modelled (ring of capacity QUEUE_SIZE_COMMAND; Lagged moves the cursor to the oldest retained value) and exercised through the real runtime; the schedule fed to the model is the observed one (which receive happened when), values and order are what is checked.",
+         "DESIGN.md section 4 C15"),
 }
 NOT_YET = "check not built yet in this round (planned: Lean model + correspondence, see DESIGN.md section 4)"
 
